@@ -291,7 +291,14 @@ ObsVerdict(e) ==
    time |-> ObsTimeOK(e, fr),
    nreq |-> Len(reqs)]
 
-LatestRecorded(k) == IF k = -1 \/ known = -1 THEN k ELSE Max(known, k)
+\* "A time the client previously recorded in the datastore": every clock sample of an enforcing
+\* operation is recorded, except the one that made it fail as stepped backward; the latest of all of
+\* them, over all operations on this datastore, is what later samples are held against.
+RECURSIVE SeqMax(_, _)
+SeqMax(q, m) == IF q = <<>> THEN m ELSE SeqMax(Tail(q), Max(m, Head(q)))
+RecordedSamples(e) == IF e.res = "SystemTimeSteppedBackward" /\ Len(e.samples) > 0
+                      THEN SubSeq(e.samples, 1, Len(e.samples) - 1) ELSE e.samples
+LatestRecorded(e) == SeqMax(RecordedSamples(e), Max(known, e.store.known))
 
 OEnd == /\ IsEv("end")
         /\ UNCHANGED <<pc, cyc, shipped, cur, now, enforce, reqs, maxRoot, stale, walk, reord, nread, last, chain, hist, tid>>
@@ -301,7 +308,7 @@ OEnd == /\ IsEv("end")
            /\ res' = e.res
            \* "a time the client previously recorded": the latest of all of them - a client that records an
            \* earlier time (and so forgets the later one) must still be held to the later one
-           /\ IF StoreKnown(e.store) THEN store' = JStore(e.store) /\ known' = LatestRecorded(e.store.known)
+           /\ IF StoreKnown(e.store) THEN store' = JStore(e.store) /\ known' = LatestRecorded(e)
                                       ELSE UNCHANGED <<store, known>>
            /\ IF e.res = "ok"
               THEN /\ root' = fr
@@ -326,7 +333,7 @@ ORead == /\ IsEv("read")
                       /\ e.res = "SystemTimeSteppedBackward" => enforce /\ back
                       /\ enforce /\ ~back /\ Len(e.samples) >= 1 /\ ob.expRole # "none" =>
                            (e.samples[1] > ob.exp <=> e.res \in TimeWords \ {"SystemTimeSteppedBackward"})
-            IN /\ known' = LatestRecorded(e.store.known)
+            IN /\ known' = LatestRecorded(e)
                /\ PrintT(<<"VERDICT", ToJson([id |-> tid, l |-> l, mode |-> "obs", res |-> e.res,
                                               read |-> TRUE, time |-> ok])>>)
          /\ UNCHANGED <<pc, cyc, shipped, root, cur, store, now, enforce, reqs, res, succ, maxRoot, stale, walk, reord, nread, last, chain, hist, tid, ob>>
